@@ -108,6 +108,45 @@ func init() {
 		Variant{Prop: "C15", Name: "seed-known-header-from-bifurcation-swallowed", File: "sync/syncer_head.go", Expect: "C15.f",
 			Old: "\t\terr = s.incomingNetworkHead(ctx, newHead)\n", New: "\t\terr = s.incomingNetworkHead(ctx, newHead)\n\t\tif errors.Is(err, header.ErrKnownHeader) {\n\t\t\terr = nil\n\t\t}\n"},
 
+		// C17 seeds
+		Variant{Prop: "C17", Name: "seed-head-advanced-only-for-adjacent-appends", File: st, Expect: "C17.e",
+			Old: "\t\ts.advanceHead(ctx)\n\t\ts.recedeTail(ctx)", New: "\t\tif hp := s.contiguousHead.Load(); hp != nil && len(headers) > 0 && headers[0].Height() == (*hp).Height()+1 {\n\t\t\ts.advanceHead(ctx)\n\t\t}\n\t\ts.recedeTail(ctx)"},
+		Variant{Prop: "C17", Name: "seed-settail-decides-on-callers-head-snapshot", File: st, Expect: "C17.b",
+			Old:  "func (s *Store[H]) setTail(ctx context.Context, write datastore.Write, to uint64) error {",
+			New:  "func (s *Store[H]) setTail(ctx context.Context, write datastore.Write, to uint64, head H) error {",
+			More: []Edit{
+				{File: st, Old: "\thead, _ := s.Head(ctx)\n\tif head.IsZero() || to > head.Height() {", New: "\tif head.IsZero() || to > head.Height() {"},
+				{File: "store/store_delete.go", Old: "\t\t\t\tif terr := s.setTail(ctx, s.ds, actualTo); terr != nil {", New: "\t\t\t\tif terr := s.setTail(ctx, s.ds, actualTo, head); terr != nil {"},
+				{File: "store/store_delete.go", Old: "\t\tif err := s.setTail(ctx, s.ds, actualTo); err != nil {", New: "\t\tif err := s.setTail(ctx, s.ds, actualTo, head); err != nil {"},
+				{File: "store/store_recover.go", Old: "\tif err := store.setTail(ctx, store.ds, height); err != nil {", New: "\thead, _ := store.Head(ctx)\n\tif err := store.setTail(ctx, store.ds, height, head); err != nil {"},
+			}},
+		// C19 seeds
+		Variant{Prop: "C19", Name: "seed-head-returns-candidate-instead-of-adopted", File: "sync/syncer_head.go", Expect: "C19.b",
+			Old: "\t// so return whatever is the current highest head\n\treturn s.localHead(ctx)", New: "\treturn netHead, nil"},
+		Variant{Prop: "C19", Name: "seed-expiry-of-new-head-tested-on-old-head", File: "sync/syncer_head.go", Expect: "C19.a",
+			Old: "\tif expired, expiredFor := isExpired(newHead, s.Params.trustingPeriod); expired {", New: "\tif expired, expiredFor := isExpired(sbjHead, s.Params.trustingPeriod); expired {"},
+		// C18 seeds
+		Variant{Prop: "C18", Name: "seed-remainder-starts-one-height-low", File: "p2p/session.go", Expect: "C18.b",
+			Old: "prepareRequests(from+1,", New: "prepareRequests(from,"},
+
+		// error discipline and whole-chain wipe
+		Variant{Prop: "C08", Name: "wipe-result-inverted", File: "store/store_delete.go", Expect: "C08.c",
+			Old: "\t\t\tif err := s.wipe(ctx); err != nil {", New: "\t\t\tif err := s.wipe(ctx); err == nil {"},
+		Variant{Prop: "C08", Name: "settail-ignores-missing-new-tail", File: st, Expect: "C08.c",
+			Old: "\tnewTail, err := s.getByHeight(ctx, to)\n\tif err != nil {\n\t\treturn fmt.Errorf(\"getting tail: %w\", err)\n\t}", New: "\tnewTail, err := s.getByHeight(ctx, to)\n\tif err != nil {\n\t\tlog.Errorw(\"getting tail\", \"err\", err)\n\t}"},
+		Variant{Prop: "C08", Name: "pointer-update-failure-swallowed", File: "store/store_delete.go", Expect: "C08.c",
+			Old: "\t\tif err := s.setTail(ctx, s.ds, actualTo); err != nil {\n\t\t\treturn errors.Join(", New: "\t\tif err := s.setTail(ctx, s.ds, actualTo); err != nil && deleteErr != nil {\n\t\t\treturn errors.Join("},
+		Variant{Prop: "C08", Name: "wipe-for-any-suffix", File: "store/store_delete.go", Expect: "C08.a",
+			Old: "\tif updateTail && updateHead {\n\t\t// Only wipe", New: "\tif updateHead {\n\t\t// Only wipe"},
+		Variant{Prop: "C08", Name: "wipe-although-header-at-to", File: "store/store_delete.go", Expect: "C08.a",
+			Old: "\t\tif errors.Is(err, header.ErrNotFound) {\n\t\t\t// No header at 'to'", New: "\t\tif !errors.Is(err, header.ErrNotFound) {\n\t\t\t// No header at 'to'"},
+		Variant{Prop: "C07", Name: "sync-store-append-failure-swallowed", File: "sync/sync_store.go", Expect: "C07.c",
+			Old: "\tif err := s.Store.Append(ctx, headers...); err != nil {\n\t\treturn err\n\t}\n\n\treturn nil\n}", New: "\tif err := s.Store.Append(ctx, headers...); err == nil {\n\t\treturn err\n\t}\n\n\treturn nil\n}"},
+		Variant{Prop: "C16", Name: "tail-append-failure-swallowed", File: "sync/syncer_tail.go", Expect: "C16.c",
+			Old: "\tif err != nil {\n\t\treturn newTail, fmt.Errorf(\"appending tail header %d: %w\", newTail.Height(), err)\n\t}", New: "\tif err != nil {\n\t\tlog.Errorw(\"appending tail header\", \"err\", err)\n\t}"},
+		Variant{Prop: "C06", Name: "flush-pointer-write-failure-swallowed", File: st, Expect: "C06.a",
+			Old: "\tif err := writeHeaderHashTo(ctx, batch, tail, tailKey); err != nil {\n\t\treturn err\n\t}", New: "\tif err := writeHeaderHashTo(ctx, batch, tail, tailKey); err != nil {\n\t\tlog.Errorw(\"tail pointer\", \"err\", err)\n\t}"},
+
 		Variant{Prop: "C08", Name: "benign-batch-commit-via-local", File: st,
 			Old: "\treturn contextds.WithWrite(ctx, batch), func() error {\n\t\treturn batch.Commit(ctx)\n\t}",
 			New: "\treturn contextds.WithWrite(ctx, batch), func() error {\n\t\terr := batch.Commit(ctx)\n\t\treturn err\n\t}"},
